@@ -99,19 +99,37 @@ func (s *State) SetBuf(h int, b []byte) V {
 // ---- watchdog for hangs (C01) ----
 var callStart atomic.Int64
 var callDesc atomic.Value
+var callDecode atomic.Bool // the call in flight is a decode (C01 speaks about those)
 
 func init() {
 	go func() {
 		for {
 			time.Sleep(200 * time.Millisecond)
 			st := callStart.Load()
-			if st != 0 && time.Since(time.Unix(0, st)) > 10*time.Second {
-				d, _ := callDesc.Load().(string)
+			if st == 0 {
+				continue
+			}
+			el := time.Since(time.Unix(0, st))
+			d, _ := callDesc.Load().(string)
+			if len(d) > 4000 {
+				d = d[:4000]
+			}
+			if callDecode.Load() && el > 10*time.Second {
 				fmt.Fprintf(os.Stderr, "VERIF_HANG %s\n", d)
 				os.Exit(97)
 			}
+			if el > 300*time.Second { // not a decode: no property bounds its time; give up as a machinery failure
+				fmt.Fprintf(os.Stderr, "VERIF_STUCK %s\n", d)
+				os.Exit(98)
+			}
 		}
 	}()
+}
+
+func guardedDecode(desc func() string, f func()) (panicked bool, msg string) {
+	callDecode.Store(true)
+	defer callDecode.Store(false)
+	return guarded(desc, f)
 }
 
 func guarded(desc func() string, f func()) (panicked bool, msg string) {
@@ -336,7 +354,7 @@ func (s *State) UnmarshalFull(entry string, b, h, dh, eqh, eqb int) V {
 	p := NewOf(entry)
 	var err error
 	a0 := s.allocNow()
-	pan, msg := guarded(func() string { return fmt.Sprintf("unmarshal %s %v", entry, orig) }, func() { err = p.Unmarshal(in) })
+	pan, msg := guardedDecode(func() string { return fmt.Sprintf("unmarshal %s %v", entry, orig) }, func() { err = p.Unmarshal(in) })
 	alloc := s.allocNow() - a0
 	var out any = none
 	if !pan && err == nil {
@@ -362,7 +380,7 @@ func (s *State) DatagramParts(b, h int, parts []int) V {
 	var ps []rtcp.Packet
 	var err error
 	a0 := s.allocNow()
-	pan, msg := guarded(func() string { return fmt.Sprintf("datagram %v", orig) }, func() { ps, err = rtcp.Unmarshal(in) })
+	pan, msg := guardedDecode(func() string { return fmt.Sprintf("datagram %v", orig) }, func() { ps, err = rtcp.Unmarshal(in) })
 	alloc := s.allocNow() - a0
 	out := L{}
 	if !pan {
@@ -389,7 +407,7 @@ func (s *State) UnitDecode(unit string, b int) V {
 	var err error
 	var out any = none
 	a0 := s.allocNow()
-	pan, msg := guarded(func() string { return fmt.Sprintf("udec %s %v", unit, orig) }, func() {
+	pan, msg := guardedDecode(func() string { return fmt.Sprintf("udec %s %v", unit, orig) }, func() {
 		switch unit {
 		case "hdr":
 			var x rtcp.Header
